@@ -48,9 +48,10 @@ func (e *kvElection) heartbeatLoop(ctx context.Context) {
 						e.handleHealthCheckFailure()
 						return
 					}
-					continue
-				}
-				if e.healthFailureCount.Load() > 0 {
+					// Below the threshold the instance still claims leadership, so it must
+					// keep its record alive: skipping the refresh lets the record expire
+					// (TTL can be as short as 3 intervals) while IsLeader() is still true.
+				} else if e.healthFailureCount.Load() > 0 {
 					e.healthFailureCount.Store(0)
 					log := e.getLogger()
 					log.Debug("health_check_recovered",
